@@ -125,7 +125,7 @@ def documents(tier, layer):
     if key in _CACHE:
         return _CACHE[key]
     out = []
-    inter = [('none', None), ('text', ('t', 'x')), ('comment', ('c', 'k')), ('ws', ('t', '\n ')), ('cdata', ('cd', 'd'))]
+    inter = [('none', None), ('text', ('t', 'x')), ('comment', ('c', 'k')), ('ws', ('t', '\n ')), ('cdata', ('cd', 'd')), ('pi', ('pi', 'p q')), ('decl', ('decl', 'ENTITY e "x"'))]
     if layer != 'plain':
         inter = inter[:3]
     for row in rows(tier, layer):
